@@ -7,6 +7,11 @@ here = os.path.dirname(os.path.dirname(os.path.abspath(__file__)))
 d = os.path.join(here, 'seeded', sid)
 os.makedirs(d, exist_ok=True)
 patch = subprocess.run(['git', '-C', wt, 'diff', '--', 'mabwiser'], capture_output=True, text=True).stdout
+saved = os.path.join(wt, 'seed_patch.diff')
+if os.path.exists(saved) and 'mabwiser/' in open(saved).read():
+    # the sub-agent's own record of its change (scratch worktrees of one repository share `git stash`, so the working tree
+    # may hold somebody else's hunk); the confirmation below decides whether it is kept
+    patch = open(saved).read()
 open(os.path.join(d, 'patch.diff'), 'w').write(patch)
 shutil.copy(os.path.join(wt, 'seed_demo.py'), os.path.join(d, 'demo.py'))
 try:
